@@ -12,7 +12,8 @@ if args and args[0] == "--lanes":
     lanes = int(args[1]); args = args[2:]
 free = queue.Queue()
 head = subprocess.check_output(["git", "-C", "/repo", "rev-parse", "HEAD"], text=True).strip()
-for i in range(lanes):
+BASE = int(os.environ.get("LANE_BASE", "0"))
+for i in range(BASE, BASE + lanes):
     wt = f"/root/lane{i}"
     if not os.path.exists(wt):
         subprocess.check_call(["git", "-C", "/repo", "worktree", "add", "--detach", wt, "HEAD"], stdout=subprocess.DEVNULL, stderr=subprocess.DEVNULL)
